@@ -1642,4 +1642,565 @@ theorem noDrop_of_length {p : Pat} {cfg : Cfg} {evs : List Event} (h : evs.lengt
   unfold runAll
   exact noDrop_from evs Eng.init 0 (by intro k; simp [Eng.init]) rfl (by omega)
 
+/-! ## NFA level: `compile` in closed form; `advance`/`tryStart` are the interpreter on the compiled NFA -/
+
+/-! ### the shape of the compiled NFA -/
+
+/-- the Kleene state of an `all` step whose id is `base` -/
+def kState (s : Step) (base : Nat) : NState :=
+  { stype := .kleene, ty := some s.ty, pred := s.eager, alias := s.alias, eps := [base, base + 1],
+    selfLoop := true, postponed := s.postponed }
+
+/-- the event state of a plain step -/
+def eState (s : Step) (out : List Nat) : NState := { ty := some s.ty, pred := s.pred, alias := s.alias, trans := out }
+
+/-- a continue state -/
+def cState (out : List Nat) : NState := { trans := out }
+
+/-- states appended for `steps` when the first new id is `base`, links filled in, before `set_accept` -/
+def build (base : Nat) : List Step → List NState
+  | [] => []
+  | s :: rest =>
+    if s.kleene then
+      kState s base :: cState (if rest.isEmpty then [] else [base + 2]) :: build (base + 2) rest
+    else eState s (if rest.isEmpty then [] else [base + 1]) :: build (base + 1) rest
+
+theorem modify_append_left {α} (l1 l2 : List α) (i : Nat) (f : α → α) (h : i < l1.length) :
+    (l1 ++ l2).modify i f = l1.modify i f ++ l2 := by
+  apply List.ext_getElem?
+  intro j
+  simp only [List.getElem?_modify, List.getElem?_append, List.length_modify]
+  by_cases hj : j < l1.length
+  · simp [hj, List.getElem?_modify]
+  · simp [hj]
+    have : i ≠ j := by omega
+    simp [this]
+
+theorem modify_append_right {α} (l1 l2 : List α) (i : Nat) (f : α → α) (h : l1.length ≤ i) :
+    (l1 ++ l2).modify i f = l1 ++ l2.modify (i - l1.length) f := by
+  apply List.ext_getElem?
+  intro j
+  simp only [List.getElem?_modify, List.getElem?_append, List.length_modify]
+  by_cases hj : j < l1.length
+  · simp [hj]
+    have : i ≠ j := by omega
+    simp [this]
+  · simp [hj, List.getElem?_modify]
+    by_cases hij : i = j
+    · subst hij; simp
+    · have : i - l1.length ≠ j - l1.length := by omega
+      simp [hij, this]
+
+theorem modify_singleton {α} (x : α) (f : α → α) : [x].modify 0 f = [f x] := rfl
+
+theorem build_length (base : Nat) (steps : List Step) :
+    (build base steps).length = steps.length + steps.countP (·.kleene) := by
+  induction steps generalizing base with
+  | nil => rfl
+  | cons s rest ih =>
+    unfold build
+    by_cases hk : s.kleene = true
+    · simp [hk, ih]; omega
+    · simp [hk, ih]; omega
+
+theorem compileStep_kleene (n : Nfa) (prev : Nat) (s : Step) (hprev : prev < n.length) (hk : s.kleene = true) :
+    compileStep n prev s = (addTrans n prev n.length ++ [kState s n.length, cState []], n.length + 1) := by
+  unfold compileStep
+  simp only [hk, if_true]
+  refine Prod.ext ?_ ?_
+  · apply List.ext_getElem?
+    intro j
+    have hp : prev ≠ n.length := by omega
+    simp only [addTrans, addEps, List.getElem?_modify, List.getElem?_append, List.length_modify,
+      List.length_append, List.length_cons, List.length_nil]
+    by_cases h1 : j < n.length
+    · have h2 : n.length ≠ j := by omega
+      have h3 : j < n.length + 1 := by omega
+      simp [h1, h2, h3]
+    · by_cases h2 : j = n.length
+      · subst h2
+        simp [kState, hp]
+      · by_cases h3 : j = n.length + 1
+        · subst h3
+          simp [cState]
+        · have h4 : ¬ j < n.length + 1 := by omega
+          have h5 : n.length ≠ j := by omega
+          have h7 : ¬ j < n.length + 1 + 1 := by omega
+          simp [h1, h4, h5]
+          rw [List.getElem?_eq_none (by simp; omega), List.getElem?_eq_none (by simp; omega)]
+  · simp [addTrans, addEps]
+
+theorem build_k (base : Nat) (s : Step) (rest : List Step) (hk : s.kleene = true) :
+    build base (s :: rest) = kState s base :: cState (if rest.isEmpty then [] else [base + 2]) :: build (base + 2) rest := by
+  rw [build]; simp [hk]
+
+theorem build_e (base : Nat) (s : Step) (rest : List Step) (hk : ¬ s.kleene = true) :
+    build base (s :: rest) = eState s (if rest.isEmpty then [] else [base + 1]) :: build (base + 1) rest := by
+  rw [build]; simp [hk]
+
+theorem compileStep_plain (n : Nfa) (prev : Nat) (s : Step) (hprev : prev < n.length) (hk : ¬ s.kleene = true) :
+    compileStep n prev s = (addTrans n prev n.length ++ [eState s []], n.length) := by
+  unfold compileStep
+  simp only [hk, Bool.false_eq_true, if_false]
+  unfold addTrans
+  rw [modify_append_left _ _ _ _ hprev]
+  rfl
+
+theorem build_ne_nil (base : Nat) (s : Step) (rest : List Step) : (build base (s :: rest)).length ≥ 1 := by
+  rw [build_length]; simp; omega
+
+/-- `compileSteps` appends `build` and links `prev` to the first new state -/
+theorem compileSteps_eq : ∀ (steps : List Step) (n : Nfa) (prev : Nat), prev < n.length →
+    (compileSteps n prev steps).1 = (if steps.isEmpty then n else addTrans n prev n.length) ++ build n.length steps ∧
+    (compileSteps n prev steps).2 = (if steps.isEmpty then prev else n.length + (build n.length steps).length - 1) := by
+  intro steps
+  induction steps with
+  | nil => intro n prev _; simp [compileSteps, build]
+  | cons s rest ih =>
+    intro n prev hprev
+    unfold compileSteps
+    simp only [List.isEmpty_cons, Bool.false_eq_true, if_false]
+    by_cases hk : s.kleene = true
+    · rw [compileStep_kleene n prev s hprev hk]
+      simp only []
+      have hlen : (addTrans n prev n.length ++ [kState s n.length, cState []]).length = n.length + 2 := by
+        simp [addTrans]
+      obtain ⟨h1, h2⟩ := ih (addTrans n prev n.length ++ [kState s n.length, cState []]) (n.length + 1) (by rw [hlen]; omega)
+      rw [hlen] at h1 h2
+      rw [h1, h2, build_k _ _ _ hk]
+      constructor
+      · by_cases hr : rest.isEmpty = true
+        · simp [hr]
+        · simp only [hr, Bool.false_eq_true, if_false]
+          unfold addTrans
+          rw [modify_append_right _ _ _ _ (by simp)]
+          simp [List.modify, cState]
+      · by_cases hr : rest.isEmpty = true
+        · have : rest = [] := by simpa using hr
+          subst this; simp [build]
+        · simp only [hr, Bool.false_eq_true, if_false, List.length_cons]
+          cases rest with
+          | nil => simp at hr
+          | cons s' rest' => have := build_ne_nil (n.length + 2) s' rest'; omega
+    · rw [compileStep_plain n prev s hprev hk]
+      simp only []
+      have hlen : (addTrans n prev n.length ++ [eState s []]).length = n.length + 1 := by
+        simp [addTrans]
+      obtain ⟨h1, h2⟩ := ih (addTrans n prev n.length ++ [eState s []]) n.length (by rw [hlen]; omega)
+      rw [hlen] at h1 h2
+      rw [h1, h2, build_e _ _ _ hk]
+      constructor
+      · by_cases hr : rest.isEmpty = true
+        · simp [hr]
+        · simp only [hr, Bool.false_eq_true, if_false]
+          unfold addTrans
+          rw [modify_append_right _ _ _ _ (by simp)]
+          simp [List.modify, eState]
+      · by_cases hr : rest.isEmpty = true
+        · have : rest = [] := by simpa using hr
+          subst this; simp [build]
+        · simp only [hr, Bool.false_eq_true, if_false, List.length_cons]
+          cases rest with
+          | nil => simp at hr
+          | cons s' rest' => have := build_ne_nil (n.length + 1) s' rest'; omega
+
+/-- the final states of `steps` (first id `base`): `set_accept` and `has_epsilon_to_accept` applied -/
+def shapeFrom (base : Nat) : List Step → List NState
+  | [] => []
+  | s :: rest =>
+    if s.kleene then
+      { kState s base with epsAccept := rest.isEmpty }
+        :: { cState (if rest.isEmpty then [] else [base + 2]) with stype := if rest.isEmpty then .accept else .normal }
+        :: shapeFrom (base + 2) rest
+    else
+      { eState s (if rest.isEmpty then [] else [base + 1]) with stype := if rest.isEmpty then .accept else .normal }
+        :: shapeFrom (base + 1) rest
+
+/-- the whole compiled NFA in closed form -/
+def shape (steps : List Step) : Nfa :=
+  (if steps.isEmpty then ({ stype := .accept } : NState) else { stype := .start, trans := [1] }) :: shapeFrom 1 steps
+
+/-- `set_accept` on the last state -/
+def markLast (l : List NState) : List NState := l.modify (l.length - 1) fun s => { s with stype := .accept }
+
+/-- the `has_epsilon_to_accept` pass -/
+def epsA (full : Nfa) (s : NState) : NState :=
+  { s with epsAccept := s.eps.any fun i => (full[i]?.map (·.stype)) == some .accept }
+
+theorem markLast_cons (x : NState) (l : List NState) (h : l ≠ []) : markLast (x :: l) = x :: markLast l := by
+  unfold markLast
+  cases l with
+  | nil => exact absurd rfl h
+  | cons y ys => simp [List.modify]
+
+theorem mark_eps (pre : List NState) : ∀ (steps : List Step), steps ≠ [] →
+    (markLast (build pre.length steps)).map (epsA (pre ++ markLast (build pre.length steps))) = shapeFrom pre.length steps := by
+  intro steps
+  induction steps generalizing pre with
+  | nil => intro h; exact absurd rfl h
+  | cons s rest ih =>
+    intro _
+    by_cases hk : s.kleene = true
+    · rw [build_k _ _ _ hk]
+      by_cases hr : rest = []
+      · subst hr
+        simp [build, markLast, List.modify, shapeFrom, hk, epsA, kState, cState]
+      · have hb : build (pre.length + 2) rest ≠ [] := by
+          cases rest with
+          | nil => exact absurd rfl hr
+          | cons s' r' => intro h; have := build_ne_nil (pre.length + 2) s' r'; rw [h] at this; simp at this
+        have hre : rest.isEmpty = false := by simpa using hr
+        rw [markLast_cons _ _ (by simp), markLast_cons _ _ hb]
+        have := ih (pre ++ [kState s pre.length, cState [pre.length + 2]]) hr
+        simp only [List.length_append, List.length_cons, List.length_nil] at this
+        simp only [hre, Bool.false_eq_true, if_false, List.map_cons]
+        rw [shapeFrom]
+        simp only [hk, if_true, hre, Bool.false_eq_true, if_false]
+        have hfull : pre ++ kState s pre.length :: cState [pre.length + 2] :: markLast (build (pre.length + 2) rest)
+            = (pre ++ [kState s pre.length, cState [pre.length + 2]]) ++ markLast (build (pre.length + 2) rest) := by simp
+        rw [hfull, this]
+        simp [epsA, kState, cState]
+    · rw [build_e _ _ _ hk]
+      by_cases hr : rest = []
+      · subst hr
+        simp [build, markLast, List.modify, shapeFrom, hk, epsA, eState]
+      · have hb : build (pre.length + 1) rest ≠ [] := by
+          cases rest with
+          | nil => exact absurd rfl hr
+          | cons s' r' => intro h; have := build_ne_nil (pre.length + 1) s' r'; rw [h] at this; simp at this
+        have hre : rest.isEmpty = false := by simpa using hr
+        rw [markLast_cons _ _ hb]
+        have := ih (pre ++ [eState s [pre.length + 1]]) hr
+        simp only [List.length_append, List.length_cons, List.length_nil] at this
+        simp only [hre, Bool.false_eq_true, if_false, List.map_cons]
+        rw [shapeFrom]
+        simp only [hk, Bool.false_eq_true, if_false, hre]
+        have hfull : pre ++ eState s [pre.length + 1] :: markLast (build (pre.length + 1) rest)
+            = (pre ++ [eState s [pre.length + 1]]) ++ markLast (build (pre.length + 1) rest) := by simp
+        rw [hfull, this]
+        simp [epsA, eState]
+
+/-- **the compiled NFA in closed form** (`NfaCompiler::compile` on a sequence of `Event`/`KleenePlus(Event)`) -/
+theorem compile_eq_shape (p : Pat) : compile p = shape p.steps := by
+  unfold compile shape
+  by_cases hs : p.steps = []
+  · simp [hs, compileSteps, shapeFrom, List.modify]
+  · obtain ⟨h1, h2⟩ := compileSteps_eq p.steps [({ stype := .start } : NState)] 0 (by simp)
+    have he : p.steps.isEmpty = false := by simpa using hs
+    simp only [he, Bool.false_eq_true, if_false, List.length_cons, List.length_nil] at h1 h2 ⊢
+    have hb : (build 1 p.steps).length ≥ 1 := by
+      cases hst : p.steps with
+      | nil => exact absurd hst hs
+      | cons s' r' => exact build_ne_nil 1 s' r'
+    have hpre : addTrans [({ stype := .start } : NState)] 0 1 = [({ stype := .start, trans := [1] } : NState)] := by
+      simp [addTrans, List.modify]
+    rw [h1, h2, hpre]
+    rw [modify_append_right _ _ _ _ (by simp; omega)]
+    have hidx : 0 + 1 + (build 1 p.steps).length - 1 - [({ stype := .start, trans := [1] } : NState)].length
+        = (build 1 p.steps).length - 1 := by simp
+    rw [hidx]
+    have := mark_eps [({ stype := .start, trans := [1] } : NState)] p.steps hs
+    simp only [List.length_cons, List.length_nil, Nat.zero_add] at this
+    show List.map (epsA _) _ = _
+    rw [List.map_append]
+    unfold markLast at this
+    rw [this]
+    simp [epsA]
+
+/-! ### lookups in the compiled NFA -/
+
+/-- offset of step `i`'s event state among the states of `steps` -/
+def off (steps : List Step) (i : Nat) : Nat := i + (steps.take i).countP (·.kleene)
+
+theorem sid_eq (steps : List Step) (i : Nat) : sid steps i = 1 + off steps i := by
+  unfold sid off; omega
+
+/-- the final event state of step `s` with id `id` (`last`: it is the last step) -/
+def evS (s : Step) (id : Nat) (last : Bool) : NState :=
+  if s.kleene then { kState s id with epsAccept := last }
+  else { eState s (if last then [] else [id + 1]) with stype := if last then .accept else .normal }
+
+/-- the final continue state of an `all` step with id `id` -/
+def contS (id : Nat) (last : Bool) : NState :=
+  { cState (if last then [] else [id + 2]) with stype := if last then .accept else .normal }
+
+theorem off_zero (steps : List Step) : off steps 0 = 0 := by simp [off]
+
+theorem off_succ (s : Step) (rest : List Step) (i : Nat) :
+    off (s :: rest) (i + 1) = off rest i + (if s.kleene then 2 else 1) := by
+  unfold off
+  simp only [List.take_succ_cons, List.countP_cons]
+  split <;> omega
+
+theorem shapeFrom_get : ∀ (steps : List Step) (base i : Nat) (s : Step), steps[i]? = some s →
+    (shapeFrom base steps)[off steps i]? = some (evS s (base + off steps i) (i + 1 == steps.length)) ∧
+    (s.kleene = true → (shapeFrom base steps)[off steps i + 1]? = some (contS (base + off steps i) (i + 1 == steps.length))) := by
+  intro steps
+  induction steps with
+  | nil => intro base i s h; simp at h
+  | cons s0 rest ih =>
+    intro base i s h
+    cases i with
+    | zero =>
+      simp only [List.getElem?_cons_zero, Option.some.injEq] at h
+      subst h
+      rw [off_zero, shapeFrom]
+      have hl : (0 + 1 == (s0 :: rest).length) = rest.isEmpty := by
+        cases rest <;> simp
+      rw [hl]
+      by_cases hk : s0.kleene = true
+      · simp [hk, evS, contS]
+      · simp [hk, evS]
+    | succ j =>
+      simp only [List.getElem?_cons_succ] at h
+      rw [off_succ, shapeFrom]
+      have hl : (j + 1 + 1 == (s0 :: rest).length) = (j + 1 == rest.length) := by
+        simp
+      rw [hl]
+      by_cases hk : s0.kleene = true
+      · simp only [hk, if_true]
+        have := ih (base + 2) j s h
+        constructor
+        · rw [show off rest j + 2 = (off rest j) + 1 + 1 by omega, List.getElem?_cons_succ, List.getElem?_cons_succ]
+          rw [this.1]; congr 2; omega
+        · intro hks
+          rw [show off rest j + 2 + 1 = (off rest j + 1) + 1 + 1 by omega, List.getElem?_cons_succ, List.getElem?_cons_succ]
+          rw [this.2 hks]; congr 2; omega
+      · simp only [hk, Bool.false_eq_true, if_false]
+        have := ih (base + 1) j s h
+        constructor
+        · rw [List.getElem?_cons_succ, this.1]; congr 2; omega
+        · intro hks
+          rw [show off rest j + 1 + 1 = (off rest j + 1) + 1 by omega, List.getElem?_cons_succ, this.2 hks]; congr 2; omega
+
+/-- the event state of step `i` and, for an `all` step, its continue state, in the compiled NFA -/
+theorem compile_get (p : Pat) (i : Nat) (s : Step) (h : p.steps[i]? = some s) :
+    (compile p)[sid p.steps i]? = some (evS s (sid p.steps i) (p.isLast i)) ∧
+    (s.kleene = true → (compile p)[sid p.steps i + 1]? = some (contS (sid p.steps i) (p.isLast i))) := by
+  rw [compile_eq_shape, sid_eq]
+  unfold shape Pat.isLast
+  have := shapeFrom_get p.steps 1 i s h
+  constructor
+  · rw [show 1 + off p.steps i = off p.steps i + 1 by omega, List.getElem?_cons_succ, this.1]
+    congr 2; omega
+  · intro hk
+    rw [show 1 + off p.steps i + 1 = (off p.steps i + 1) + 1 by omega, List.getElem?_cons_succ, this.2 hk]
+    try (congr 2; omega)
+
+theorem compile_get_start (p : Pat) (h : p.steps ≠ []) :
+    (compile p)[0]? = some ({ stype := .start, trans := [1] } : NState) := by
+  rw [compile_eq_shape]
+  unfold shape
+  simp [h]
+
+theorem sid_succ (steps : List Step) (i : Nat) (s : Step) (h : steps[i]? = some s) :
+    sid steps (i + 1) = sid steps i + (if s.kleene then 2 else 1) := by
+  unfold sid
+  rw [List.take_succ_eq_append_getElem (List.getElem?_eq_some_iff.mp h).1, List.countP_append]
+  have := (List.getElem?_eq_some_iff.mp h).2
+  simp [this]
+  split <;> omega
+
+/-! ### the step-level functions are the NFA interpreter on the compiled NFA -/
+
+/-- a step-level run seen at NFA level: `pos` becomes the id of the step's event state -/
+def toN (p : Pat) (r : Run) : Run := { r with pos := sid p.steps r.pos }
+
+def Adv.mapRun (f : Run → Run) : Adv → Adv
+  | .continue r => .continue (f r)
+  | .complete m => .complete m
+  | .completeAndContinue r m => .completeAndContinue (f r) m
+  | .noMatch => .noMatch
+
+theorem eager_of_plain {s : Step} (h : ¬ s.kleene = true) : s.eager = s.pred := by
+  unfold Step.eager; cases s.pred <;> simp [h]
+
+theorem matchesN_evS (s : Step) (id : Nat) (last : Bool) (e : Event) (caps : Caps) :
+    matchesN (evS s id last) e caps = matchesState s e caps := by
+  unfold matchesN evS matchesState
+  by_cases hk : s.kleene = true
+  · simp only [hk, if_true, kState]
+    try (cases s.eager <;> rfl)
+  · simp only [hk, Bool.false_eq_true, if_false, eState, eager_of_plain hk]
+    try (cases s.pred <;> rfl)
+
+theorem postponed_of_plain {s : Step} (h : ¬ s.kleene = true) : s.postponed = none := by
+  unfold Step.postponed; cases s.pred <;> simp [h]
+
+theorem selfLoopN_evS (p : Pat) (cfg : Cfg) (r : Run) (cur : Step) (e : Event) (hk : cur.kleene = true) :
+    selfLoopN (evS cur (sid p.steps r.pos) (p.isLast r.pos)) cfg (toN p r) e = (selfLoop p cfg r cur e).mapRun (toN p) := by
+  unfold selfLoopN selfLoop
+  have h1 : (evS cur (sid p.steps r.pos) (p.isLast r.pos)).epsAccept = p.isLast r.pos := by simp [evS, hk, kState]
+  have h2 : (evS cur (sid p.steps r.pos) (p.isLast r.pos)).postponed = cur.postponed := by simp [evS, hk, kState]
+  have h3 : (evS cur (sid p.steps r.pos) (p.isLast r.pos)).alias = cur.alias := by simp [evS, hk, kState]
+  have h4 : capFull cfg (toN p r) = capFull cfg r := rfl
+  rw [h1, h2, h3, h4]
+  have hcaps : (toN p r).caps = r.caps := rfl
+  rw [hcaps]
+  unfold postponedFails
+  by_cases hc : capFull cfg r = true
+  · simp [hc, Adv.mapRun]
+  · simp only [hc, Bool.false_eq_true, if_false]
+    cases hq : cur.postponed with
+    | none =>
+      simp only [Bool.and_false, Bool.false_eq_true, if_false]
+      by_cases hl : p.isLast r.pos = true
+      · simp [hl, Adv.mapRun, toN, Run.push, Run.result]
+      · simp [hl, Adv.mapRun, toN, Run.push]
+    | some q =>
+      simp only []
+      by_cases hpp : (p.isLast r.pos && !evalPred q e r.caps) = true
+      · simp [hpp, Adv.mapRun]
+      · simp only [hpp, Bool.false_eq_true, if_false]
+        by_cases hl : p.isLast r.pos = true
+        · simp [hl, Adv.mapRun, toN, Run.push, Run.result]
+        · simp [hl, Adv.mapRun, toN, Run.push]
+
+theorem evS_stype_accept (s : Step) (id : Nat) (last : Bool) :
+    ((evS s id last).stype == SType.accept) = (last && !s.kleene) := by
+  unfold evS
+  by_cases hk : s.kleene = true
+  · simp [hk, kState]
+  · cases last <;> simp [hk, eState]
+
+theorem evS_kleene (s : Step) (id : Nat) (last : Bool) :
+    ((evS s id last).stype == SType.kleene && (evS s id last).selfLoop) = s.kleene := by
+  unfold evS
+  by_cases hk : s.kleene = true
+  · simp [hk, kState]
+  · cases last <;> simp [hk, eState]
+
+theorem evS_alias (s : Step) (id : Nat) (last : Bool) : (evS s id last).alias = s.alias := by
+  unfold evS; split <;> simp [kState, eState]
+
+theorem evS_epsAccept (s : Step) (id : Nat) (last : Bool) : (evS s id last).epsAccept = (s.kleene && last) := by
+  unfold evS
+  by_cases hk : s.kleene = true
+  · simp [hk, kState]
+  · simp [hk, eState]
+
+theorem not_last_next {p : Pat} {i : Nat} (h : i < p.steps.length) (hl : p.isLast i = false) :
+    ∃ nxt, p.steps[i + 1]? = some nxt := by
+  unfold Pat.isLast at hl
+  exact ⟨_, List.getElem?_eq_getElem (by simp at hl; omega)⟩
+
+/-- the transitions arm: one transition, to the next step's event state -/
+theorem transLoop_next (p : Pat) (cfg : Cfg) (r : Run) (e : Event) (nxt : Step) (hn : p.steps[r.pos + 1]? = some nxt) :
+    transLoop (compile p) cfg (toN p r) e [sid p.steps (r.pos + 1)] =
+      if matchesState nxt e r.caps then some ((enterNext p cfg r nxt e).mapRun (toN p)) else none := by
+  have hget := (compile_get p (r.pos + 1) nxt hn).1
+  unfold transLoop
+  simp only [hget, matchesN_evS]
+  have hc : (toN p r).caps = r.caps := rfl
+  rw [hc]
+  by_cases hm : matchesState nxt e r.caps = true
+  · simp only [hm, if_true, evS_stype_accept, evS_kleene, evS_alias, evS_epsAccept]
+    unfold enterNext
+    by_cases h1 : (p.isLast (r.pos + 1) && !nxt.kleene) = true
+    · simp [h1, Adv.mapRun, toN, Run.push, Run.result]
+    · simp only [h1, Bool.false_eq_true, if_false]
+      by_cases hk : nxt.kleene = true
+      · simp only [hk, if_true, Bool.true_and]
+        by_cases hl : p.isLast (r.pos + 1) = true
+        · simp [hl, Adv.mapRun, toN, Run.push, Run.result]
+        · simp [hl, Adv.mapRun, toN, Run.push]
+      · simp [hk, Adv.mapRun, toN, Run.push]
+  · simp [hm, transLoop]
+
+/-- the epsilon arm of a Kleene state: [self, continue] -/
+theorem epsLoop_kleene (p : Pat) (r : Run) (e : Event) (cur : Step) (h : r.pos < p.steps.length)
+    (hcur : p.steps[r.pos]? = some cur) (hk : cur.kleene = true) :
+    epsLoop (compile p) (toN p r) e [sid p.steps r.pos, sid p.steps r.pos + 1] = (viaEpsilon p r e).mapRun (toN p) := by
+  have hget := compile_get p r.pos cur hcur
+  have hcont := hget.2 hk
+  unfold epsLoop
+  simp only [hget.1, evS_stype_accept, hk, Bool.not_true, Bool.and_false, Bool.false_eq_true, if_false]
+  have htr : (evS cur (sid p.steps r.pos) (p.isLast r.pos)).trans = [] := by simp [evS, hk, kState]
+  rw [htr]
+  unfold epsInner
+  simp only []
+  unfold epsLoop
+  simp only [hcont]
+  unfold viaEpsilon
+  by_cases hl : p.isLast r.pos = true
+  · simp [hl, contS, cState, Adv.mapRun, toN, Run.result]
+  · have hl' : p.isLast r.pos = false := by simpa using hl
+    obtain ⟨nxt, hn⟩ := not_last_next h hl'
+    have hsid : sid p.steps r.pos + 2 = sid p.steps (r.pos + 1) := by
+      rw [sid_succ p.steps r.pos cur hcur]; simp [hk]
+    simp only [hl', contS, cState, Bool.false_eq_true, if_false, hn]
+    have hstn : ((SType.normal == SType.accept) = false) := by decide
+    simp only [hstn, Bool.false_eq_true, if_false, hsid]
+    have hgetn := (compile_get p (r.pos + 1) nxt hn).1
+    unfold epsInner
+    simp only [hgetn, matchesN_evS]
+    have hc : (toN p r).caps = r.caps := rfl
+    rw [hc]
+    by_cases hm : matchesState nxt e r.caps = true
+    · simp only [hm, if_true, evS_stype_accept, evS_alias]
+      by_cases h1 : (p.isLast (r.pos + 1) && !nxt.kleene) = true
+      · simp [h1, Adv.mapRun, toN, Run.push, Run.result]
+      · simp [h1, Adv.mapRun, toN, Run.push]
+    · simp [hm, epsInner, epsLoop, Adv.mapRun]
+
+/-- **`advance` is `advance_run_shared` on the compiled NFA** -/
+theorem advanceN_compile (p : Pat) (cfg : Cfg) (r : Run) (e : Event) (h : r.pos < p.steps.length) :
+    advanceN (compile p) cfg (toN p r) e = (advance p cfg r e).mapRun (toN p) := by
+  obtain ⟨cur, hcur⟩ : ∃ cur, p.steps[r.pos]? = some cur := ⟨_, List.getElem?_eq_getElem h⟩
+  have hget := compile_get p r.pos cur hcur
+  unfold advanceN advance
+  have hpos : (toN p r).pos = sid p.steps r.pos := rfl
+  have hc : (toN p r).caps = r.caps := rfl
+  simp only [hpos, hget.1, hcur, evS_stype_accept, evS_kleene, matchesN_evS, hc]
+  by_cases hacc : (p.isLast r.pos && !cur.kleene) = true
+  · simp [hacc, Adv.mapRun, toN, Run.result]
+  · simp only [hacc, Bool.false_eq_true, if_false]
+    by_cases hs : (cur.kleene && matchesState cur e r.caps) = true
+    · simp only [hs, if_true]
+      simp only [Bool.and_eq_true] at hs
+      exact selfLoopN_evS p cfg r cur e hs.1
+    · simp only [hs, Bool.false_eq_true, if_false]
+      by_cases hk : cur.kleene = true
+      · -- Kleene state: no transitions, epsilons [self, continue]
+        have htr : (evS cur (sid p.steps r.pos) (p.isLast r.pos)).trans = [] := by simp [evS, hk, kState]
+        have hep : (evS cur (sid p.steps r.pos) (p.isLast r.pos)).eps = [sid p.steps r.pos, sid p.steps r.pos + 1] := by
+          simp [evS, hk, kState]
+        simp only [htr, hep, transLoop, hk, Bool.not_true, Bool.false_eq_true, if_false]
+        exact epsLoop_kleene p r e cur h hcur hk
+      · -- Normal state: one transition, no epsilons
+        have hl : p.isLast r.pos = false := by
+          cases hl : p.isLast r.pos with
+          | false => rfl
+          | true => simp [hl, hk] at hacc
+        obtain ⟨nxt, hn⟩ := not_last_next h hl
+        have hsid : sid p.steps r.pos + 1 = sid p.steps (r.pos + 1) := by
+          rw [sid_succ p.steps r.pos cur hcur]; simp [hk]
+        have htr : (evS cur (sid p.steps r.pos) (p.isLast r.pos)).trans = [sid p.steps (r.pos + 1)] := by
+          simp [evS, hk, eState, hl, hsid]
+        have hep : (evS cur (sid p.steps r.pos) (p.isLast r.pos)).eps = [] := by simp [evS, hk, eState]
+        simp only [htr, hep, hk, Bool.not_false, if_true]
+        rw [transLoop_next p cfg r e nxt hn]
+        unfold viaTransitions
+        simp only [hn]
+        by_cases hm : matchesState nxt e r.caps = true
+        · simp [hm]
+        · simp [hm, epsLoop, Adv.mapRun]
+
+/-- **`tryStart` is `try_start_run_shared` on the compiled NFA** -/
+theorem tryStartN_compile (p : Pat) (e : Event) : tryStartN (compile p) e = (tryStart p e).map (toN p) := by
+  unfold tryStartN tryStart
+  cases hs : p.steps with
+  | nil =>
+    rw [compile_eq_shape]; simp [shape, hs, shapeFrom]
+  | cons s0 rest =>
+    have hne : p.steps ≠ [] := by simp [hs]
+    rw [compile_get_start p hne]
+    have hget := (compile_get p 0 s0 (by simp [hs])).1
+    have hsid : sid p.steps 0 = 1 := by simp [sid]
+    rw [hsid] at hget
+    simp only [List.findSome?_cons, hget, matchesN_evS, evS_alias]
+    by_cases hm : matchesState s0 e [] = true
+    · simp [hm, toN, hsid, Run.push]
+    · simp [hm]
+
 end Varpulis.Sase
